@@ -63,7 +63,7 @@ def main():
             placed.append((dest, os.path.basename(d)))
         res["demo_placed"] = placed
         pkgs = " ".join(sorted(set("./" + p[0] + "/" for p in placed)))
-        race = "-race" if "-race" in (open(src + "/notes.md").read() if os.path.exists(src + "/notes.md") else "") else ""
+        race = "-race" if "-race" in (open(src + "/notes.md").read() if os.path.exists(src + "/notes.md") else "") and not os.path.exists(src + "/NO_RACE") else ""
         def demo_run():
             names = []
             for dest, f in placed:
